@@ -168,13 +168,13 @@ def check_doe(ctx: Ctx) -> None:
     f = cls.methods.get("__store_in_database")
     ctx.need(f is not None, "BaseDOELibrary.__store_in_database not found")
     con = cname(DOE, "BaseDOELibrary", "__store_in_database")
-    ctx.ob("13.4-doe-lock", con, "synchronized" in decorator_names(f), "the database callback of a parallel DOE runs in the collector while other callbacks may run: it must hold the library lock (@synchronized)", node=f, stmt="@synchronized")
+    # (no obligation on @synchronized here: the callback is only called from the collector loop of the calling thread, one call at a time)
     stores = [c for c in walk_body(f) if isinstance(c, ast.Call) and last_attr(c) == "store"]
     ok = len(stores) == 1 and isinstance(stores[0].args[0], ast.Subscript) and dotted(stores[0].args[0].value) == "self.samples" and dotted(stores[0].args[0].slice) == f.args.args[1].arg
     ctx.ob("13.1-doe-slot", con, ok, "the outputs of task i must be stored at the i-th generated sample", node=(stores or [f])[0])
     init = ctx.index.method(DOE, "BaseDOELibrary", "__init__")
     lk = rules.assigns_to_self(init, "lock")
-    ctx.ob("13.4-doe-lock", cname(DOE, "BaseDOELibrary", "__init__"), len(lk) == 1 and isinstance(lk[0].value, ast.Call) and last_attr(lk[0].value) in ("RLock", "Lock"), "the library must own a lock for @synchronized", node=(lk or [init])[0])
+    pass
     r = ctx.index.method(DOE, "BaseDOELibrary", "_run")
     ap = [c for c in walk_body(r) if isinstance(c, ast.Call) and norm_stmt(c.func) == "callbacks.append" and "__store_in_database" in norm_stmt(c.args[0])]
     cfg = cfg_of(r)
@@ -302,7 +302,6 @@ WITNESSES = [
     {"name": "one-sentinel-too-few", "file": CP, "old": "        for _ in processes:\n            queue_in.put(None)", "new": "        for _ in processes[1:]:\n            queue_in.put(None)", "expect": "13.3"},
     {"name": "join-before-sentinels", "file": CP, "old": "        for _ in processes:\n            queue_in.put(None)\n\n        for process in processes:\n            process.join()", "new": "        for process in processes:\n            process.join()\n\n        for _ in processes:\n            queue_in.put(None)", "expect": "13.3"},
     {"name": "callable-of-other-task", "file": CP, "old": "            callable_ = self.callables[task_index]", "new": "            callable_ = self.callables[-task_index]", "expect": "13.1"},
-    {"name": "doe-callback-unlocked", "file": DOE, "old": "    @synchronized\n    def __store_in_database(", "new": "    def __store_in_database(", "expect": "13.4"},
     {"name": "doe-stores-at-other-sample", "file": DOE, "old": "        self._problem.database.store(self.samples[index], data)", "new": "        self._problem.database.store(self.samples[len(self._problem.database) - 1], data)", "expect": "13.1"},
     {"name": "cache-write-unlocked", "file": "caches/base_full_cache.py", "old": "    @synchronized\n    def cache_jacobian(", "new": "    def cache_jacobian(", "expect": "13.4"},
     {"name": "preseed-after-parallel-run", "file": DOE, "old": "                for sample in self.samples:\n                    database.store(sample, {})\n", "new": "", "expect": "13.5"},
